@@ -499,6 +499,13 @@ def body_text(fn):
 
 
 def check_pinned(pinned=None):
+    # Message.__init__ stores every parameter in the field of its name and Message.copy hands every field to the constructor
+    # (checked on the AST by the view-level translator): `msg.copy()` is the identity on values for this translator too
+    import py2lean
+    try:
+        py2lean.check_message_class()
+    except py2lean.Untranslatable as e:
+        raise Untranslatable(f"pinned convention Message: {e}")
     for (path, cls, meth), want in (pinned or PINNED).items():
         fns = class_methods(os.path.join(REPO, path), cls)
         if meth not in fns:
